@@ -69,6 +69,8 @@ def sim_concrete(block, K, modelvals, kind='sim', reg_init='sym', mem_init='sym'
             mmap[memmap_key(m)] = {int(a): v for a, v in modelvals.get('mems', {}).get(m.name, {}).items()}
     if track == 'all':
         tracked = list(block.wirevector_set)
+    elif track == 'named':
+        tracked = sorted(block.wirevector_subset((pyrtl.Input, pyrtl.Output, pyrtl.Register)), key=lambda w: w.name)
     else:
         tracked = list(block.wirevector_subset((pyrtl.Input, pyrtl.Output)))
     tracer = pyrtl.SimulationTrace(wires_to_track=tracked, block=block)
